@@ -8,7 +8,7 @@ TRUSTED = ["asyncio keeps a datagram endpoint alive after an exception in a prot
            "events are sent from one socket in paced bursts; a sentinel broadcast per port is the delivery barrier"]
 ASSUMPTIONS = ["order is compared per port (the property's claim); the relative order of different ports is not compared"]
 RULE = ("event sequences over {valid broadcast of each family, foreign bytes, truncated, bit-flipped, unknown model, invalid UTF-8 name, "
-        "out-of-range time field} on 1..4 ports with the user's callback raising on chosen invocations; every valid broadcast is "
+        "out-of-range time field} on 1..4 ports, on a fresh bridge or one stopped and started again once or twice, with the user's callback raising on chosen invocations; every valid broadcast is "
         "tagged with its port and sequence number in the device name; thorough: every sequence of length <= 3 over the 8-letter "
         "alphabet on 2 ports; byte-identical datagrams repeated on the same and on other ports, sent one at a time; non-trivial = distinct sequences holding a valid broadcast after a bad datagram or a raising callback")
 REQUIREMENT = ("per port, the callback log = the decoded devices of exactly the valid broadcasts sent to that port, in sending order "
@@ -79,7 +79,7 @@ def run_sequences(out, stream, cases):
         res = []
         for c in cases:
             ev = [(p, bytes.fromhex(h)) for p, h in c["events"]]
-            log, nh, nw, complete = await world.feed_bridge(c["ports"], ev, set(c["raising"]), c05.show, c06.sentinel)
+            log, nh, nw, complete = await world.feed_bridge(c["ports"], ev, set(c["raising"]), c05.show, c06.sentinel, restarts=c.get("restarts", 0))
             v = per_port_view(c["ports"], [(port_of(s), s) for s in log])
             res.append(v + " ## handler=%d" % nh if complete else "barrier-lost " + v)
         return res
@@ -96,7 +96,7 @@ def run_sequences(out, stream, cases):
             p, s = l.split(":", 1); pairs.append((int(p), s))
         mo.append(per_port_view(c["ports"], pairs) + " ## " + lines[-1])
     ex = [per_port_view(c["ports"], [(int(p), e) for p, es in c["expected"].items() for e in es]) for c in cases]
-    lib.differential(out, stream, cases, io, mo, ex, lambda c: "%d ports, events %s, callback raises on %s" % (c["ports"], c["letters"], c["raising"]),
+    lib.differential(out, stream, cases, io, mo, ex, lambda c: "%d ports, bridge restarted %d times, events %s, callback raises on %s" % (c["ports"], c.get("restarts", 0), c["letters"], c["raising"]),
                      nontrivial=lambda c: any(l in FAMILY for l in c["letters"]) and (any(l not in FAMILY for l in c["letters"]) or c["raising"]),
                      sample=lambda c: {"ports": c["ports"], "letters": c["letters"], "raising": c["raising"]},
                      classify=lambda c, i: "%d-ports/len%d" % (c["ports"], min(len(c["letters"]) // 10 * 10, 100)),
@@ -149,7 +149,8 @@ def mk(rnd, n_ports, letters, raising=None):
     seq, exp = gen_sequence(rnd, n_ports, letters)
     nvalid = sum(1 for l in letters if l in FAMILY)
     if raising is None: raising = sorted(rnd.sample(range(nvalid), rnd.randrange(0, nvalid + 1))) if nvalid and rnd.random() < .6 else []
-    return {"ports": n_ports, "letters": list(letters), "events": seq, "raising": raising, "expected": {str(p): e for p, e in exp.items()}}
+    return {"ports": n_ports, "letters": list(letters), "events": seq, "raising": raising, "expected": {str(p): e for p, e in exp.items()},
+            "restarts": rnd.choice([0, 0, 0, 1, 2])}
 
 
 def run(tier, rnd, out):
